@@ -4,10 +4,12 @@ Runs /verif/build/yaclint (LibTooling) over library and probe units in the analy
 configurations, caches one JSON per (unit, configuration) keyed by a hash of the analysed
 sources, and exposes the facts as light python objects.  Nothing of YACLib is executed.
 """
+import gzip
 import hashlib
 import json
 import os
 import re
+import shutil
 import subprocess
 import sys
 import time
@@ -42,7 +44,7 @@ def tree_hash(root=None):
     root = root or REPO
     h = hashlib.sha256()
     paths = []
-    for base in (os.path.join(root, 'include'), os.path.join(root, 'src'), PROBES,
+    for base in (os.path.join(root, 'include'), os.path.join(root, 'src'), os.path.join(root, 'test'), PROBES,
                  os.path.join(VERIF, 'witness')):
         for d, _, fs in os.walk(base):
             for f in fs:
@@ -155,12 +157,48 @@ def probe_units(cfg):
     return out
 
 
+def test_units(cfg, root=None):
+    """The repository's own test and example units that the build of this configuration compiles
+    (test/CMakeLists.txt: the unit and example lists, coro/ only with coroutines, fault/ only under FIBER).
+    They are parsed, never run: their only role is to instantiate more of the library's templates."""
+    root = root or REPO
+    c = CONFIGS[cfg]
+    try:
+        cm = _read(os.path.join(root, 'test', 'CMakeLists.txt')).decode()
+    except OSError:
+        return []
+    out = []
+    for sub in ('unit', 'example'):
+        for d, _, fs in os.walk(os.path.join(root, 'test', sub)):
+            for f in sorted(fs):
+                if not f.endswith('.cpp'):
+                    continue
+                p = os.path.join(d, f)
+                rel = os.path.relpath(p, os.path.join(root, 'test'))[:-4]
+                if not re.search(r'(?m)^\s*(add_executable\([^)]*\s)?%s(\.cpp\)?)?\s*$' % re.escape(rel), cm):
+                    continue
+                if rel == 'unit/log':
+                    continue  # built with extra logging definitions; instantiates nothing of interest
+                if rel.startswith('unit/coro/') or rel == 'unit/async/dealloc_order':
+                    if not c['coro']:
+                        continue
+                if rel.startswith('unit/fault/'):
+                    if c['fault'] != 2:
+                        continue
+                out.append(p)
+    return sorted(out)
+
+
+def _is_test_unit(unit, root):
+    return unit.startswith(os.path.join(root, 'test') + '/')
+
+
 def _out_name(unit, cfg, root):
     rel = unit
     for base in (root, VERIF):
         if unit.startswith(base + '/'):
             rel = os.path.relpath(unit, base)
-    return cfg + '__' + rel.replace('/', '_') + '.json'
+    return cfg + '__' + rel.replace('/', '_') + ('.json.gz' if _is_test_unit(unit, root) else '.json')
 
 
 def extract(pairs, root=None, jobs=16):
@@ -181,7 +219,10 @@ def extract(pairs, root=None, jobs=16):
         unit, cfg, out = job
         tmp = out + '.tmp%d' % os.getpid()
         roots = ','.join([os.path.join(root, 'include'), os.path.join(root, 'src'), PROBES])
-        cmd = [TOOL, '-o', tmp, '--roots=' + roots, unit, '--'] + flags(cfg, root)
+        fl = flags(cfg, root)
+        if _is_test_unit(unit, root):
+            fl = fl + ['-I' + os.path.join(root, 'test'), '-DYACLIB_CI_SLOWDOWN=1']
+        cmd = [TOOL, '-o', tmp, '--roots=' + roots, unit, '--'] + fl
         p = subprocess.run(cmd, stdout=subprocess.PIPE, stderr=subprocess.PIPE, text=True)
         if p.returncode != 0 or not os.path.exists(tmp):
             try:
@@ -189,6 +230,11 @@ def extract(pairs, root=None, jobs=16):
             except OSError:
                 pass
             return (unit, cfg, p.stderr[-3000:])
+        if out.endswith('.gz'):
+            with open(tmp, 'rb') as fi, gzip.open(tmp + '.gz', 'wb', compresslevel=1) as fo:
+                shutil.copyfileobj(fi, fo, 1 << 20)
+            os.unlink(tmp)
+            tmp += '.gz'
         os.replace(tmp, out)
         return None
 
@@ -497,7 +543,7 @@ class FactBase:
         self._derived = None
 
     def load(self, path, unit, cfgid):
-        with open(path) as f:
+        with (gzip.open(path, 'rt') if path.endswith('.gz') else open(path)) as f:
             d = json.load(f)
         if d.get('errors'):
             raise AnalysisBroken('%s has %d compile errors in %s' % (unit, d['errors'], cfgid))
@@ -599,7 +645,7 @@ class FactBase:
         return seen
 
 
-def load(cfgs, kinds=('lib', 'probe'), only=None, root=None, extra_units=()):
+def load(cfgs, kinds=('lib', 'probe'), only=None, root=None, extra_units=(), tests=None):
     """Extract (cached) and load the facts of the given configurations.
 
     returns {cfg: FactBase}.  `only`: optional regex on the unit path."""
@@ -616,6 +662,10 @@ def load(cfgs, kinds=('lib', 'probe'), only=None, root=None, extra_units=()):
             if only and not re.search(only, u):
                 continue
             pairs.append((u, c))
+        if tests:
+            for u in test_units(c, root):
+                if re.search(tests, u):
+                    pairs.append((u, c))
     t0 = time.time()
     outs = extract(pairs, root)
     fbs = {}
